@@ -163,7 +163,8 @@ def prefixToks : PrefixOp → List Token
 def tokPi : Token := .identifier ['p', 'i']
 
 /-- `impl Quil for Expression :: write` (mod.rs:694), as tokens.  `format_inner_expression x` is
-`wrapIf (needsParens x) (printTop x)` (`inner` below). -/
+`wrapIf (needsParens x) (printTop x)` (`inner` below).  Region names are taken to lex as `Identifier`
+tokens here; what the lexer really does with a name is `relex` (see `printExprTokens`). -/
 def printTop (F : NumFmt) : PExpr → List Token
   | .address r => [.identifier r.name.toList, .lBracket, .integer r.index, .rBracket]
   | .call f e => .identifier (fnName f) :: .lParenthesis :: (printTop F e ++ [.rParenthesis])
@@ -179,8 +180,19 @@ def printTop (F : NumFmt) : PExpr → List Token
 /-- `format_inner_expression` (mod.rs:771) -/
 def inner (F : NumFmt) (e : PExpr) : List Token := wrapIf (needsParens e) (printTop F e)
 
-/-- the printer with the concrete number formatter: what `lex_tokens(e.to_quil())` returns -/
-def printExprTokens (e : PExpr) : List Token := printTop stdFmt e
+/-- What the lexer makes of a written name (`keyword_or_identifier`, lexer/mod.rs:190): a name spelled like
+a reserved word (`ADD`, `DAGGER`, `mut`, `BIT`, `PAULI-SUM` …) comes back as a `Command` / `Modifier` /
+`DataType` / keyword token, not as an `Identifier`. -/
+def relex : Token → Token
+  | .identifier s => keywordOrIdentifier s
+  | t => t
+
+/-- the printer with the concrete number formatter and the lexer's classification of names: what
+`lex_tokens(e.to_quil())` returns (compared on every case of the C03 correspondence).  It differs from
+`printTop stdFmt e` exactly when a memory region is named like a reserved word — then the text does not
+parse back (known finding C03/reserved-word-region-name); `QV.ExprRoundTrip.printExprTokens_eq` proves the
+two equal under `plainNames`. -/
+def printExprTokens (e : PExpr) : List Token := (printTop stdFmt e).map relex
 
 /-! ## what the printed tokens parse back to -/
 
@@ -221,6 +233,18 @@ def allLits (p : CBits → Bool) : PExpr → Bool
 zero is not printed — `format_complex` tests `== 0f64` — so `Number(-4 - 0.0i)` is written `-4` and reads
 back as `-4 + 0.0i`, on the other side of the branch cut of `sqrt`; see docs/C03.md.) -/
 def finiteLits (e : PExpr) : Bool := allLits (fun z => plainBits z.re && plainBits z.im) e
+
+/-- a predicate on every memory reference -/
+def allAddrs (p : MemRef → Bool) : PExpr → Bool
+  | .address r => p r
+  | .call _ e => allAddrs p e
+  | .bin l _ r => allAddrs p l && allAddrs p r
+  | .pre _ e => allAddrs p e
+  | _ => true
+
+/-- no memory region is named like a reserved word of the lexer (then its name lexes as an `Identifier`
+token — given that it is a valid identifier at all, which is a character-level matter outside this model) -/
+def plainNames (e : PExpr) : Bool := allAddrs (fun r => !isReservedWord r.name.toList) e
 
 /-- the NumTok hypothesis for one literal: the token written for the magnitude of each component denotes
 that magnitude, bit for bit -/
